@@ -62,9 +62,18 @@ class Gen:
         if how == "percent":
             d = bin(v)[2:]
             return ("num", v, len(d), "%" + d)
-        d = "%x" % v
-        d2 = "_".join(d[i:i + 2] for i in range(0, len(d), 2))
-        return ("num", v, 4 * len(d), "0x" + d2)
+        # digit separators at every place the lexer allows them: between digits, doubled, right after the radix prefix,
+        # at the end, in every base
+        base, pre, per = r.choice([(16, "0x", 4), (16, "$", 4), (2, "0b", 1), (2, "%", 1), (8, "0o", 3), (10, "", None)])
+        d = {16: "%x", 8: "%o", 10: "%d"}[base] % v if base != 2 else bin(v)[2:]
+        out = []
+        for i, c in enumerate(d):
+            if r.chance(0.3) and (i > 0 or pre):
+                out.append("_" * r.range(1, 2))
+            out.append(c)
+        if r.chance(0.2):
+            out.append("_")
+        return ("num", v, None if per is None else per * len(d), pre + "".join(out))
 
     def string(self):
         r = self.r
@@ -344,6 +353,21 @@ def run(chk):
                 s = mutate(g.r, s)
             texts.append(s); intent.append(None)
             dist["mutant"] += 1
+    # directed: division and remainder truncate toward zero for every sign combination, small and multi-word operands,
+    # divisors that are powers of two (where a shift would floor instead) and others
+    def lit(v):
+        n = ("num", abs(v), None, str(abs(v)))
+        return n if v >= 0 else ("un", "Neg", n)
+    mags = [1, 2, 3, 7, 9, 255, 256, (1 << 63) - 1, (1 << 64) + 1, (1 << 130) + 1]
+    divs = [1, 2, 4, 8, 16, 3, 10, 1 << 32, 1 << 64, (1 << 64) + 3]
+    pairs = [(sa * a, sb * b) for a in mags for b in divs for sa in (1, -1) for sb in (1, -1)]
+    if quick:
+        pairs = g.r.shuffle(pairs)[:160]
+    for (a, b) in pairs:
+        for op in ("Div", "Mod"):
+            t = ("bin", op, lit(a), lit(b))
+            texts.append(show(t, False)); intent.append((tree_str(t), 2))
+            dist["minimal"] += 1
     lines = ["E " + vlib.hx(s) for s in texts]
     impl = vlib.run_lines([bins["debug"] + "/expr"], lines)
     impl_rel = vlib.run_lines([bins["release"] + "/expr"], lines)
